@@ -63,6 +63,7 @@ type stream struct {
 	rpos    int
 	wclosed bool
 	rclosed bool
+	reset   bool // the writing end was closed with SO_LINGER 0: what was not read yet is gone, the reader gets ECONNRESET
 	Seg     Seg
 	all     []byte
 }
@@ -77,6 +78,7 @@ type TCPConn struct {
 	Name       string
 	Closes     int
 	TxBuf      func() int
+	linger0    bool
 }
 
 type timeoutErr struct{}
@@ -124,6 +126,8 @@ func (c *TCPConn) Read(p []byte) (int, error) {
 		copy(p, c.in.data[c.in.rpos:c.in.rpos+n])
 		c.in.rpos += n
 		return n, nil
+	case c.in.reset:
+		return 0, &net.OpError{Op: "read", Net: "vnet", Err: syscall.ECONNRESET}
 	case c.in.wclosed:
 		return 0, io.EOF
 	default:
@@ -167,6 +171,10 @@ func (c *TCPConn) Close() error {
 	c.closed = true
 	c.out.wclosed = true
 	c.in.rclosed = true
+	if c.linger0 { // abortive close: the send queue is discarded and the peer is reset (the worst case the kernel allows)
+		c.out.data = c.out.data[:c.out.rpos]
+		c.out.reset = true
+	}
 	return nil
 }
 
@@ -199,7 +207,7 @@ func (c *TCPConn) SetReadDeadline(t time.Time) error  { c.rdl = t; c.armDeadline
 func (c *TCPConn) SetWriteDeadline(t time.Time) error { c.wdl = t; c.armDeadline(t); return nil }
 func (c *TCPConn) SetKeepAlive(bool) error            { return nil }
 func (c *TCPConn) SetNoDelay(bool) error              { return nil }
-func (c *TCPConn) SetLinger(int) error                { return nil }
+func (c *TCPConn) SetLinger(sec int) error            { c.linger0 = sec == 0; return nil }
 func (c *TCPConn) TxBufferLen() int {
 	if c.TxBuf != nil {
 		return c.TxBuf()
